@@ -171,9 +171,7 @@ func c11Pair[V univers.Version[V], VR univers.VersionRange[V]](e univers.Ecosyst
 	vv.Reached()
 	vv.Assume(rpmValid(a))
 	vv.Assume(rpmValid(b))
-	// a missing release is compared only with a missing release (RPM compares the release of
-	// two packages; what an absent one means is tool-specific)
-	vv.Assume(rpmSameShape(a, b))
+	// an absent release is the empty string for rpmvercmp (the property: "then release with rpmvercmp")
 	vv.Assume(!vv.Known("KF-C11-rpm-not-rpmvercmp", c11Outside(a, b)))
 	vv.Assert(sign(va.Compare(vb)) == rpmCompare(a, b), "C11: order differs from rpmvercmp")
 }
